@@ -25,6 +25,7 @@ def run(rep, idx, tier):
     rep.require("C11.6", 5)
     rep.require("C11.7", 1)
     rep.require("C11.9", 1)
+    rep.require("C11.10", 1)
     from . import glue as _g9
     _g9.reset_discipline(rep, "C11.9", idx, ["csr/reg:Register", "csr/reg:Bridge"])
     from .c19 import shared_state
@@ -38,6 +39,7 @@ def run(rep, idx, tier):
                           text, "TypeError")
         except Exception as e:
             rep.unk("C11.5", "-", f"{spec}: non-empty collection", f"cannot decide: {type(e).__name__}: {e}")
+    annotation_filter(rep, idx, "C11.10")
     c = get_ctx(idx, "Register.elaborate")
     rep.analysed(c.fi.site)
     rep.count("drivers", len(c.t.drivers))
@@ -457,6 +459,75 @@ def flatten_order(rep, idx):
     ok = any(ir.norm(ir.from_ast(n.iter, {})) == ('name', 'fields') for n in fors) and \
         any(isinstance(n, ast.Call) and ast.unparse(n.func) == "self._fields.append" for n in ast.walk(a.node))
     rep.check(ok, "C11.6", a.site, "FieldActionArray instantiates fields in list order (append)", "no `for item in fields: ... append`", nontrivial=False)
+
+
+def annotation_filter(rep, idx, rule="C11.10"):
+    """Fields declared as class annotations are collected by a filter over `self.__annotations__` that keeps what *is* a field
+    (a Field, or a dict / list that still holds one after filtering) and drops what is not.  Whether an entry is kept may depend
+    on its value only: a test on the entry's *name* silently drops an annotated field, and every field after it moves down."""
+    try:
+        init = idx.find_func("csr/reg:Register.__init__")
+    except Exception:
+        rep.unk(rule, "csr/reg.py", "annotation filter", "Register.__init__ not found")
+        return
+    site = init.site
+    what = "annotated fields are kept whatever their name (the filter looks at values only)"
+    # the function applied to self.__annotations__: a nested def, or a method / module function
+    target = None
+    for n in ast.walk(init.node):
+        if isinstance(n, ast.Call) and any(ast.unparse(a_) in ("self.__annotations__", "type(self).__annotations__", "cls.__annotations__")
+                                           for a_ in list(n.args) + [k.value for k in n.keywords]):
+            name = n.func.id if isinstance(n.func, ast.Name) else (n.func.attr if isinstance(n.func, ast.Attribute) else None)
+            for d in ast.walk(init.node):
+                if isinstance(d, ast.FunctionDef) and d.name == name and d is not init.node:
+                    target = d
+            if target is None and name is not None:
+                h = idx.lookup_method(init.cls, name) or idx.resolve_function(init.module, name)
+                target = h.node if h is not None else None
+    if target is None:
+        uses = any(isinstance(n, ast.Attribute) and n.attr == "__annotations__" for n in ast.walk(init.node))
+        if uses:
+            rep.unk(rule, site, what, "`__annotations__` is read, but not through a filter function the rule recognises")
+        else:
+            rep.ok(rule, site, what, "the constructor does not read class annotations", nontrivial=False)
+        return
+    loops = [n for n in ast.walk(target) if isinstance(n, (ast.For, ast.comprehension))]
+    n_loops = 0
+    for L in loops:
+        tgt = L.target
+        if not (isinstance(tgt, ast.Tuple) and len(tgt.elts) == 2 and all(isinstance(x, ast.Name) for x in tgt.elts)):
+            continue
+        key, val = tgt.elts[0].id, tgt.elts[1].id
+        n_loops += 1
+        tests = []
+        if isinstance(L, ast.For):
+            for x in ast.walk(L):
+                if isinstance(x, (ast.If, ast.IfExp, ast.While)):
+                    tests.append(x.test)
+                if isinstance(x, ast.comprehension):
+                    tests.extend(x.ifs)
+        else:
+            tests.extend(L.ifs)
+        named = [t for t in tests if any(isinstance(y, ast.Name) and y.id == key for y in ast.walk(t))]
+        if named:
+            rep.bad(rule, site, what,
+                    f"the filter tests the entry's name: `{ast.unparse(named[0])[:70]}` -- an annotated field whose name meets the test is "
+                    "dropped without a word, the register is narrower than declared and every later field sits at a lower bit",
+                    line=named[0].lineno)
+            return
+        other = [t for t in tests if not any(isinstance(y, ast.Name) and y.id == val for y in ast.walk(t))
+                 and not any(isinstance(y, ast.NamedExpr) for y in ast.walk(t))]
+        # a test on a name bound from the value (new_value = f(value); if new_value:) is a test on the value
+        derived = {a_.targets[0].id for a_ in ast.walk(target) if isinstance(a_, ast.Assign) and len(a_.targets) == 1 and
+                   isinstance(a_.targets[0], ast.Name) and any(isinstance(y, ast.Name) and y.id == val for y in ast.walk(a_.value))}
+        other = [t for t in other if not any(isinstance(y, ast.Name) and y.id in derived for y in ast.walk(t))]
+        if other:
+            rep.unk(rule, site, what, f"the filter has a test the rule does not classify: `{ast.unparse(other[0])[:70]}`")
+            return
+    if not n_loops:
+        rep.unk(rule, site, what, f"no (name, value) loop found in the filter `{target.name}`")
+        return
+    rep.ok(rule, site, what, f"`{target.name}`: {n_loops} (name, value) loop(s); entries are kept or dropped by their value only")
 
 
 def container_coherence(rep, idx, rule="C11.8"):
